@@ -90,7 +90,18 @@ theorem scopedSim_succ {n : Nat} (ihSs : StmtsSim S n) : ScopedSim S (n + 1) := 
       exact Steps.one (step_end hend)
   | _ => first | (rw [hrs] at ihs; exact Outcome.of_steps pre ihs) | trivial
 
-theorem stmtSim_succ {n : Nat} (ihE : ExprSim S n) (ihBr : BranchesSim S n) : StmtSim S (n + 1) := by
+/-- one statement case of `StmtSim` -/
+def StmtCase (n : Nat) (s : Stmt) : Prop :=
+  ∀ (env : Env) (log : Log) (wp c : Nat) (junk base : List Val) (fr : List Env) (K : List Nat),
+    supS s = true →
+    CodeAt S.labels S.m.prog wp (compileStmt S.m.p.structs wp c s).code →
+    DefsOk S.labels (compileStmt S.m.p.structs wp c s).defs →
+    Outcome S.m (evalStmt S.m.p n env log s) base fr K
+      (fun env' l => stAt junk base env' fr K (wp + (compileStmt S.m.p.structs wp c s).code.length) l)
+      (stAt junk base env fr K wp log)
+
+theorem stmtSim_succ {n : Nat} (ihE : ExprSim S n) (ihBr : BranchesSim S n)
+    (hM : ∀ scrut arms, StmtCase S (n + 1) (.mtch scrut arms)) : StmtSim S (n + 1) := by
   intro s env log wp c junk base fr K hsup hcode hdefs
   cases s with
   | let_ x e =>
@@ -189,7 +200,7 @@ theorem stmtSim_succ {n : Nat} (ihE : ExprSim S n) (ihBr : BranchesSim S n) : St
       · simp only [List.length_cons, List.length_append, List.length_nil]; omega
       · intro _ _; congr 1
         simp only [List.length_cons, List.length_append, List.length_nil]; omega
-  | mtch _ _ => simp [supS] at hsup
+  | mtch scrut arms => exact hM scrut arms env log wp c junk base fr K hsup hcode hdefs
 
 theorem branchesSim_succ {n : Nat} (ihE : ExprSim S n) (ihSc : ScopedSim S n) (ihBr : BranchesSim S n) :
     BranchesSim S (n + 1) := by
